@@ -266,7 +266,16 @@ def run_case(case) -> Outcome:
             pass
         out = Outcome(evals=1, nontrivial=True, labels=["malformed"])
         out.sample = {"malformed": case["why"], "bytes": case["hex"][:60]}
-        res = driver.assemble_mem(_program("between", "0"), files={"p.ips": {"hex": case["hex"]}})
+        # "rejected" includes "in bounded time": a reader that never comes back from a short file has not rejected it
+        from vlib import watchdog
+
+        w = watchdog.Watchdog(2_000_000, cpu_seconds=30.0)
+        st_, res = w.run(driver.assemble_mem, _program("between", "0"), files={"p.ips": {"hex": case["hex"]}})
+        if st_ == "budget":
+            return out.bad("malformed-not-rejected:no-termination:" + case["why"].split(" at ")[0], case,
+                           f"malformed IPS file ({case['why']}): the assembler did not come back within 2 000 000 line events ({res})")
+        if st_ != "ok":
+            raise RuntimeError(f"driver failed: {res}")
         if res.accepted:
             out.bad("malformed-accepted:" + case["why"].split(" at ")[0], case,
                     f"malformed IPS file ({case['why']}) was accepted; writer calls {driver.blocks_json(res['blocks'], 16)}")
